@@ -78,7 +78,7 @@ def core_qtt_to_tt(Q_list):
     return G
 
 
-def core_stab(G, p0=0, thr=1.E-100):
+def core_stab(G, p0=0, thr=0.):
     """Scaling for the passed TT-core, i.e., G -> (Q, p), G = 2^p * Q.
 
     Args:
